@@ -228,27 +228,6 @@ mod verif_format_string {
     #[kani::stub(alloc::fmt::format, fmt_model)]
     #[kani::stub(check_cross_page, cross_page_any)]
     fn format_string_len2() { format_string_case::<2>(); }
-
-    /// one full 32-lane block + 1 tail byte over the alphabet { a " 0x01 }
-    #[kani::proof]
-    #[kani::unwind(40)]
-    #[kani::stub(std::arch::x86_64::_mm_max_epu8, max_epu8_flat)]
-    #[kani::stub(alloc::fmt::format, fmt_model)]
-    #[kani::stub(check_cross_page, cross_page_any)]
-    fn format_string_len33() {
-        let bytes: [u8; 33] = kani::any();
-        let mut i = 0;
-        while i < 33 { kani::assume(bytes[i] == b'a' || bytes[i] == b'"' || bytes[i] == 0x01); i += 1; }
-        let s = unsafe { std::str::from_utf8_unchecked(&bytes[..]) };
-        let mut dst = [MaybeUninit::<u8>::uninit(); 6 * 33 + 35];
-        let n = format_string(s, &mut dst[..], true);
-        // length = 2 quotes + per byte 1 / 2 / 6
-        let mut want = 2usize;
-        let mut j = 0;
-        while j < 33 { want += if bytes[j] == b'a' { 1 } else if bytes[j] == b'"' { 2 } else { 6 }; j += 1; }
-        assert!(n == want);
-        assert!(unsafe { dst[0].assume_init() } == b'"' && unsafe { dst[n - 1].assume_init() } == b'"');
-    }
 }
 
 // C09 bounded stand-in: the in-place decoder over the padded buffer, as a black box against a reference decoder
